@@ -33,8 +33,17 @@ def make_df(spec, attr=None):
     data = {}
     for ci, col in enumerate(cols):
         values = [row[ci] for row in spec['rows']]
+        special = spec.get('special', {}).get(col)
+        if special == 'dt_ns':
+            data[col] = pd.Series(pd.to_datetime(values, unit='ns'))          # datetime64[ns]
+            continue
+        if special == 'td_ns':
+            data[col] = pd.Series(pd.to_timedelta(values, unit='ns'))         # timedelta64[ns]
+            continue
         if col in spec.get('strcols', [attr] if attr else []):
-            if spec.get('sdtype', 'object') == 'str':
+            if spec.get('sdtype', 'object') == 'string':
+                ser = pd.Series(values, dtype='string')          # nullable string dtype, missing = pd.NA
+            elif spec.get('sdtype', 'object') == 'str':
                 ser = pd.Series(values, dtype='str')
             else:
                 ser = pd.Series(values, dtype=object)
@@ -55,7 +64,7 @@ def make_df(spec, attr=None):
     if len(cols) and not len(spec['rows']):
         for col in cols:
             if col in spec.get('strcols', [attr] if attr else []):
-                df[col] = df[col].astype(object if spec.get('sdtype', 'object') == 'object' else 'str')
+                df[col] = df[col].astype({'object': object, 'str': 'str', 'string': 'string'}[spec.get('sdtype', 'object')])
     if spec.get('index') is not None:
         df.index = list(spec['index'])
     return df
